@@ -135,6 +135,9 @@ struct Compiler {
     /// For each loop, the length of `try_stack` when the loop was entered.
     loop_try_depth: Vec<usize>,
     break_stack: Vec<Vec<usize>>,
+    /// Whether the function was met inside the right-hand side of a compound assignment (its body
+    /// is not part of that expression).
+    enclosing_single_target_mode: bool,
 }
 
 enum CompilerError {
@@ -171,6 +174,7 @@ impl Compiler {
             loop_stack: Vec::new(),
             loop_try_depth: Vec::new(),
             break_stack: Vec::new(),
+            enclosing_single_target_mode: false,
         }
     }
 
@@ -419,8 +423,11 @@ impl<'a> Parser<'a> {
     }
 
     fn expression(&mut self) {
+        // Inside the right-hand side of a compound assignment there is no second assignment
+        // target; apart from that, what it encloses in brackets of its own (a group, arguments,
+        // elements, an index, an interpolated part) is an expression like any other.
         let precedence = if self.single_target_mode {
-            Precedence::BitwiseOr
+            Precedence::Or
         } else {
             Precedence::Assignment
         };
@@ -441,13 +448,16 @@ impl<'a> Parser<'a> {
         name: Gc<ObjString>,
         module_path: Gc<ObjString>,
     ) {
-        self.compilers.push(Compiler::new(kind, name, module_path));
+        let mut compiler = Compiler::new(kind, name, module_path);
+        compiler.enclosing_single_target_mode = mem::replace(&mut self.single_target_mode, false);
+        self.compilers.push(compiler);
     }
 
     fn finalise_compiler(&mut self) -> (Root<ObjFunction>, Vec<Upvalue>) {
         self.emit_return();
 
         let mut compiler = self.compilers.pop().expect("Compiler stack empty.");
+        self.single_target_mode = compiler.enclosing_single_target_mode;
         let function = compiler.allocate_function(self.vm);
         self.compiled_functions.push(function.clone());
 
@@ -1515,7 +1525,8 @@ impl<'a> Parser<'a> {
         self.single_target_mode = true;
         let op_kind = self.previous.kind;
         self.emit_variable_op(get_op, variable);
-        self.expression();
+        // The right-hand side itself ends before a comparison or logical operator.
+        self.parse_precedence(Precedence::BitwiseOr);
         match op_kind {
             TokenKind::MinusEqual => self.emit_byte(OpCode::Subtract as u8),
             TokenKind::PlusEqual => self.emit_byte(OpCode::Add as u8),
